@@ -31,7 +31,16 @@ partial def loop (st : Stream) (h : IO.FS.Stream) (out : IO.FS.Stream) (s : st.Ï
   if line.isEmpty then return ()
   let line := (line.dropEndWhile (fun c => c == '\n' || c == '\r')).toString
   let (op, obs) := splitTab line
+  -- `â€¦ BLIND-DIFFERS:<observation>`: the harness executed the same history a second time without the queries it makes
+  -- after every operation and the last observation came out different â€” queries are read-only, so this is a failure
+  -- whatever the stream's own verdict on the (loud) observation is
+  let (obs, blind) := match obs.splitOn " BLIND-DIFFERS:" with
+    | [a, b] => (a, some b)
+    | _ => (obs, none)
   let (s', m, v) := st.step s (tokens op) obs
+  let v := match blind with
+    | some b => "bad the same history executed WITHOUT the queries between the operations ends in a different observation (queries must be read-only): " ++ b
+    | none => v
   out.putStrLn (m ++ "\t" ++ v)
   loop st h out s'
 
